@@ -167,4 +167,17 @@ PROPS = {
                       "final division is trusted.",
         "assumptions": ["as C12", "float rank expression int64(q/100*n + 0.5) evaluated identically by harness and library"],
     },
+    "C20": {
+        "streams": ["genny"],
+        "rule": "genny: 1-4 actors built from performance-event streams through real batch collectors (chunk sizes 1,2,3,5,1000), overlapping and disjoint spans, gaps of "
+                "several seconds, many samples per second, explicit and GetGennyTime spans; thorough adds a span > 300 s. Oracle: the seven clauses of the property evaluated "
+                "on ReadStructuredMetrics of the output. Distinct = distinct case line.",
+        "level_text": "Theorems (Props/C20.lean) for every actor list, span and chunking: exactly one output sample per second of the span (one_sample_per_second), start stamps "
+                      "one second apart from the workload start, one sub-document per actor in input order in every sample, and whatever translateAtNextWindow returns is the "
+                      "value vector of one of that actor's own remaining samples (nextWindow_own). The model is compared with TranslateGenny/GetGennyTime on every case.",
+        "level_note": "Partial: 'first sample of a new second' and 'positions never move backwards' are checked by the oracle on every case (the model records the picks); the 300 "
+                      "bound is the streaming collector's capacity (C07) with the extracted constant. math.Ceil(float64(ts)/1000) is the integer ceiling for |ts| < 2^53. An actor "
+                      "without any chunk would dereference nil in Go; the property quantifies over actors built from event streams.",
+        "assumptions": ["|ts| < 2^53", "decoding of the actor streams is C01"],
+    },
 }
